@@ -212,6 +212,13 @@ class Cache(object):
         tmp_filename = self._filename + ".tmp"
         complete = False
         try:
+            # A temporary file left by an interrupted run may still be
+            # open in its suspended generator, which would write there
+            # when it is closed: create a new file, don't truncate that.
+            try:
+                os.remove(tmp_filename)
+            except OSError:
+                pass
             with open(tmp_filename, "wb") as f:
                 dump = lambda val: self._dump(val, f, self.protocol)
                 for val in flow:
